@@ -10,6 +10,7 @@
 package main
 
 import (
+	"bytes"
 	"context"
 	"encoding/json"
 	"errors"
@@ -30,6 +31,7 @@ import (
 	"github.com/spf13/cast"
 	"rivaas.dev/config"
 	"rivaas.dev/config/codec"
+	"rivaas.dev/config/source"
 	"verif/harness/hx"
 )
 
@@ -141,8 +143,13 @@ func (b *Bound) Validate() error {
 	if b.Reject {
 		return errors.New("rejected by Validate")
 	}
+	if b.Name == "boom" {
+		panic(injectedValidatePanic) // a panic out of Validate() is a panic out of Load: nothing may change
+	}
 	return nil
 }
+
+const injectedValidatePanic = "Validate panics (injected)"
 
 // validateHook runs inside Validate(), i.e. while Load holds the write lock.
 var validateHook func()
@@ -349,6 +356,36 @@ type runT struct {
 	hooks   struct{ src0, val0, validate func() }
 	real    []config.Source // the real (file/env) source objects, for asking them what they return
 	written map[int][]byte  // what was written into the file of source i for the current Load
+	holds   map[int]*holdDecoder
+}
+
+// holdDecoder is the decoder of a `source.NewFile(path, decoder)` source (kind hfile): the YAML library, with a hook
+// at the start of Decode — i.e. after the file source has read the bytes and before it decodes them.
+type holdDecoder struct{ hold func() }
+
+func (d *holdDecoder) Decode(data []byte, v any) error {
+	if h := d.hold; h != nil {
+		h()
+	}
+	return yaml.Unmarshal(data, v)
+}
+
+// blockYAML renders a map as one `"key": <JSON value>` line per top-level key (JSON is YAML), unpadded: a shorter
+// document followed by the tail of a longer one is, with luck, still a document.
+func blockYAML(m map[string]any) []byte {
+	var b bytes.Buffer
+	for _, k := range sortedMapKeys(m) {
+		kb, _ := json.Marshal(k)
+		vb, _ := json.Marshal(m[k])
+		b.Write(kb)
+		b.WriteString(": ")
+		b.Write(vb)
+		b.WriteByte('\n')
+	}
+	if b.Len() == 0 {
+		b.WriteString("{}\n")
+	}
+	return b.Bytes()
 }
 
 // editDumper edits the top level of the map Dump hands it (Dump passes a copy of the top level).
@@ -401,6 +438,12 @@ func (r *runT) build(c *caseT, withHooks bool) error {
 		switch kind {
 		case "json", "yaml":
 			opts = append(opts, config.WithFile(filepath.Join(r.dir, "s"+strconv.Itoa(i)+"."+kind)))
+		case "hfile":
+			if r.holds == nil {
+				r.holds = map[int]*holdDecoder{}
+			}
+			r.holds[i] = &holdDecoder{}
+			opts = append(opts, config.WithSource(source.NewFile(filepath.Join(r.dir, "s"+strconv.Itoa(i)+".hyaml"), r.holds[i])))
 		case "env", "env2":
 			opts = append(opts, config.WithEnv(r.pref(kind)))
 		case "static":
@@ -470,10 +513,17 @@ func (r *runT) stage(l *loadT) {
 		}
 		*r.cur[i] = s
 		*r.race[i] = s
-		if l.Race != nil && i < len(l.Race) && s.Kind == "map" {
+		if l.Race != nil && i < len(l.Race) && (s.Kind == "map" || s.Kind == "hfile") {
 			*r.race[i] = l.Race[i]
 		}
 		switch s.Kind {
+		case "hfile":
+			p := filepath.Join(r.dir, "s"+strconv.Itoa(i)+".hyaml")
+			if s.Fail {
+				_ = os.Remove(p)
+				continue
+			}
+			_ = os.WriteFile(p, blockYAML(s.M), 0o600)
 		case "json", "yaml":
 			p := filepath.Join(r.dir, "s"+strconv.Itoa(i)+"."+s.Kind)
 			if s.Fail {
@@ -537,6 +587,12 @@ func (r *runT) returned(i int, s *srcT) (map[string]any, bool) {
 	case "json":
 		var m map[string]any
 		if err := json.Unmarshal(r.written[i], &m); err != nil {
+			return nil, false
+		}
+		return m, true
+	case "hfile":
+		var m map[string]any
+		if err := yaml.Unmarshal(blockYAML(s.M), &m); err != nil {
 			return nil, false
 		}
 		return m, true
@@ -629,9 +685,11 @@ var panicMu sync.Mutex
 func (r *runT) safeLoad(ctx context.Context, o *loadObs) (err error) {
 	defer func() {
 		if p := recover(); p != nil {
-			panicMu.Lock()
-			o.panicked = true
-			panicMu.Unlock()
+			if p != injectedValidatePanic { // the binding's own Validate() panicking is the caller's fault: an error like another
+				panicMu.Lock()
+				o.panicked = true
+				panicMu.Unlock()
+			}
 			err = fmt.Errorf("panic: %v", p)
 		}
 	}()
@@ -727,7 +785,48 @@ func (r *runT) runLoad(l *loadT) (o loadObs) {
 	}
 	before := snapshot(r.cfg)
 	var err error
-	if l.Race != nil {
+	if l.Race != nil && len(l.Srcs) > 0 && l.Srcs[0].Kind == "hfile" && r.holds[0] != nil {
+		// two Loads of a file source that overlap between "read" and "decode": loader A has read the file and is
+		// held at the start of Decode; the file is replaced (by what the second loader is to see, usually shorter);
+		// loader B runs to completion; A goes on. Each must have decoded the bytes it read, whole.
+		o.raced = true
+		atDecode := make(chan struct{})
+		release := make(chan struct{})
+		var once sync.Once
+		held := false
+		r.holds[0].hold = func() {
+			first := false
+			once.Do(func() { first = true })
+			if first {
+				held = true
+				close(atDecode)
+				select {
+				case <-release:
+				case <-time.After(2 * time.Second):
+				}
+			}
+		}
+		var errB error
+		doneA := make(chan struct{})
+		go func() { defer close(doneA); err = r.safeLoad(context.Background(), &o) }()
+		select {
+		case <-atDecode:
+		case <-doneA: // the file could not be read: A never decodes
+		case <-time.After(2 * time.Second):
+		}
+		p := filepath.Join(r.dir, "s0.hyaml")
+		if r.race[0].Fail {
+			_ = os.Remove(p)
+		} else {
+			_ = os.WriteFile(p, blockYAML(r.race[0].M), 0o600)
+		}
+		errB = r.safeLoad(context.WithValue(context.Background(), loaderKey{}, 1), &o)
+		close(release)
+		<-doneA
+		_ = held
+		r.holds[0].hold = nil
+		o.failB = errB != nil
+	} else if l.Race != nil {
 		// two Loads at once: both are inside source 0's Load (outside the lock) before either goes on
 		o.raced = true
 		arrived := make(chan struct{}, 2)
@@ -831,10 +930,25 @@ func (r *runT) freshOutcome(second bool) (ok bool, fields [][2]string, vals map[
 			*f.cur[i] = *r.race[i]
 		}
 		*f.race[i] = *f.cur[i]
+		if f.cur[i].Kind == "hfile" {
+			// the file on disk holds what the last reader of the race saw: give the fresh Config the content this
+			// loader read
+			p := filepath.Join(r.dir, "s"+strconv.Itoa(i)+".hyaml")
+			if f.cur[i].Fail {
+				_ = os.Remove(p)
+			} else {
+				_ = os.WriteFile(p, blockYAML(f.cur[i].M), 0o600)
+			}
+		}
 	}
 	var dummy loadObs
 	err := f.safeLoad(context.Background(), &dummy)
 	if err != nil {
+		return false, nil, nil, false
+	}
+	if f.bound != nil && !r.c.Plain && (f.bound.Reject || f.bound.Name == "boom") {
+		// Validate() is the harness' own code: it rejects (returns an error, or panics) exactly then — a Load that
+		// succeeded nevertheless did not run it, or ignored its verdict
 		return false, nil, nil, false
 	}
 	return true, renderBound(f.bound), *f.cfg.Values(), true
@@ -1308,6 +1422,9 @@ func genCase(r *hx.Rand, tier string) caseT {
 			kinds[i] = "map"
 		}
 	}
+	if r.Chance(1, 10) {
+		kinds[0] = "hfile" // a file source with a decoder of the harness: overlapping Loads between read and decode
+	}
 	statics := make([]map[string]any, nsrc)
 	for i := range statics {
 		if kinds[i] == "static" || kinds[i] == "content" {
@@ -1396,6 +1513,9 @@ func genCase(r *hx.Rand, tier string) caseT {
 				if c.Bound && r.Chance(1, 12) {
 					set("deny", r.Chance(3, 4))
 				}
+				if c.Bound && !c.Plain && r.Chance(1, 20) {
+					set("name", "boom") // Validate() panics
+				}
 				if c.Bound && r.Chance(1, 25) {
 					set("server", hx.Pick(r, []any{"not-a-map", map[string]any{"port": "abc"}}))
 				}
@@ -1423,7 +1543,17 @@ func genCase(r *hx.Rand, tier string) caseT {
 			for i := 0; i < nsrc; i++ {
 				ld.Srcs[i].Cancel = false
 				s := ld.Srcs[i]
-				if s.Kind == "map" {
+				if s.Kind == "hfile" {
+					// what the file holds when the second loader reads it: fewer keys, other values (a shorter file)
+					m := map[string]any{}
+					for n, k := range sortedMapKeys(s.M) {
+						if n%2 == 0 || r.Chance(1, 4) {
+							m[k] = genScalar(r)
+						}
+					}
+					s.M = m
+					s.Fail = false
+				} else if s.Kind == "map" {
 					s.Fail = r.Chance(1, 12)
 					s.M = genMap(r, 0)
 					if c.Bound || r.Chance(1, 2) {
